@@ -120,5 +120,9 @@ pub fn run(cli: Cli) -> ! {
     rep.require("whole connections against the mock session server", n, 20);
     rep.set("whole_connections_with_the_real_mojang_adapter", json!(n));
     rep.assume("whole connections: the has-joined request goes to a loopback mock through the add-only verif-hooks origin override of passage-adapters-http; everything else is the unhooked code");
+    // the assembled router: stage-wise schedules of two clients and of the shutdown signal against the real Listener,
+    // and the application started by passage::start from a configuration read by Config::read()
+    crate::world::host(&rep, "C01", cli.tier.thorough());
+    crate::app::host(&rep, "C01", cli.tier.thorough());
     rep.finish()
 }
